@@ -1,2 +1,475 @@
-//! placeholder
-pub fn child_main() {}
+//! Isolated child process for hostile inputs (C14) and parent-side handle.
+//!
+//! `vcheck --worker` reads one command per line on stdin and answers one line on stdout:
+//!
+//!   gen                     -> `seeds <kind>=<hex> ...`   valid serializations from the child's own world
+//!   run <kind> <hex>        -> `<status> peak=<bytes> big=<bytes> cpu_us=<n> units=<n> detail=<text>`
+//!
+//! status: `ok` (parsed and used), `err` (rejected with an error), `panic@<file:line>`.
+//! Aborts, signals and hangs are observed by the parent (the input in flight is known).
+//! A counting global allocator measures current / peak bytes and the largest single request, and
+//! refuses (returns null, which aborts the process like a real out-of-memory) any request that
+//! would exceed a hard cap, so that over-allocation is a deterministic, visible failure that does
+//! not depend on the machine's overcommit policy.
+
+use crate::ccx::*;
+use std::alloc::{GlobalAlloc, Layout, System};
+use std::io::{BufRead, BufReader, Write};
+use std::process::{Child as PChild, ChildStdin, Command, Stdio};
+use std::sync::atomic::{AtomicBool, AtomicUsize, Ordering};
+use std::sync::mpsc::{channel, Receiver, RecvTimeoutError};
+use std::time::{Duration, Instant};
+
+pub struct Counting;
+static CUR: AtomicUsize = AtomicUsize::new(0);
+static PEAK: AtomicUsize = AtomicUsize::new(0);
+static BIG: AtomicUsize = AtomicUsize::new(0);
+static LIMITED: AtomicBool = AtomicBool::new(false);
+/// hard cap in the child: single request or total
+pub const HARD_CAP: usize = 1 << 30;
+
+unsafe impl GlobalAlloc for Counting {
+    unsafe fn alloc(&self, l: Layout) -> *mut u8 {
+        let sz = l.size();
+        if LIMITED.load(Ordering::Relaxed) && (sz > HARD_CAP || CUR.load(Ordering::Relaxed).saturating_add(sz) > HARD_CAP) {
+            return std::ptr::null_mut();
+        }
+        let p = System.alloc(l);
+        if !p.is_null() {
+            let c = CUR.fetch_add(sz, Ordering::Relaxed) + sz;
+            PEAK.fetch_max(c, Ordering::Relaxed);
+            BIG.fetch_max(sz, Ordering::Relaxed);
+        }
+        p
+    }
+    unsafe fn dealloc(&self, p: *mut u8, l: Layout) {
+        CUR.fetch_sub(l.size(), Ordering::Relaxed);
+        System.dealloc(p, l)
+    }
+    unsafe fn alloc_zeroed(&self, l: Layout) -> *mut u8 {
+        let sz = l.size();
+        if LIMITED.load(Ordering::Relaxed) && (sz > HARD_CAP || CUR.load(Ordering::Relaxed).saturating_add(sz) > HARD_CAP) {
+            return std::ptr::null_mut();
+        }
+        let p = System.alloc_zeroed(l);
+        if !p.is_null() {
+            let c = CUR.fetch_add(sz, Ordering::Relaxed) + sz;
+            PEAK.fetch_max(c, Ordering::Relaxed);
+            BIG.fetch_max(sz, Ordering::Relaxed);
+        }
+        p
+    }
+    unsafe fn realloc(&self, p: *mut u8, l: Layout, new: usize) -> *mut u8 {
+        if LIMITED.load(Ordering::Relaxed) && new > l.size() && (new > HARD_CAP || CUR.load(Ordering::Relaxed).saturating_add(new - l.size()) > HARD_CAP) {
+            return std::ptr::null_mut();
+        }
+        let q = System.realloc(p, l, new);
+        if !q.is_null() {
+            if new >= l.size() {
+                let c = CUR.fetch_add(new - l.size(), Ordering::Relaxed) + (new - l.size());
+                PEAK.fetch_max(c, Ordering::Relaxed);
+                BIG.fetch_max(new, Ordering::Relaxed);
+            } else {
+                CUR.fetch_sub(l.size() - new, Ordering::Relaxed);
+            }
+        }
+        q
+    }
+}
+
+fn cpu_us() -> u64 {
+    let mut ts = libc::timespec { tv_sec: 0, tv_nsec: 0 };
+    unsafe {
+        libc::clock_gettime(libc::CLOCK_PROCESS_CPUTIME_ID, &mut ts);
+    }
+    ts.tv_sec as u64 * 1_000_000 + ts.tv_nsec as u64 / 1000
+}
+
+// ------------------------------------------------------------------ child side
+
+struct ChildWorld {
+    cc: Covercrypt,
+    msk: MasterSecretKey,
+    mpk: MasterPublicKey,
+    usks: Vec<UserSecretKey>,
+    encs: Vec<XEnc>,
+    header: EncryptedHeader,
+}
+
+fn child_world() -> Result<ChildWorld, Error> {
+    let cc = Covercrypt::default();
+    let (mut msk, _) = cc.setup()?;
+    msk.access_structure.add_hierarchy("SEC".into())?;
+    msk.access_structure.add_attribute(qa("SEC", "LOW"), hint(false), None)?;
+    msk.access_structure.add_attribute(qa("SEC", "TOP"), hint(true), Some("LOW"))?;
+    msk.access_structure.add_anarchy("DPT".into())?;
+    msk.access_structure.add_attribute(qa("DPT", "FIN"), hint(false), None)?;
+    msk.access_structure.add_attribute(qa("DPT", "HR"), hint(false), None)?;
+    cc.update_msk(&mut msk)?;
+    let mut usks = vec![];
+    let k0 = cc.generate_user_secret_key(&mut msk, &AccessPolicy::parse("SEC::LOW && DPT::FIN")?)?;
+    let mpk = cc.rekey(&mut msk, &AccessPolicy::parse("DPT::FIN")?)?;
+    let mut k1 = k0.clone();
+    cc.refresh_usk(&mut msk, &mut k1, true)?;
+    usks.push(k1);
+    usks.push(cc.generate_user_secret_key(&mut msk, &AccessPolicy::parse("SEC::TOP && DPT::HR")?)?);
+    let mut encs = vec![];
+    for p in ["DPT::FIN || SEC::LOW", "SEC::TOP", "SEC::TOP && DPT::HR || SEC::TOP && DPT::FIN"] {
+        encs.push(cc.encaps(&mpk, &AccessPolicy::parse(p)?)?.1);
+    }
+    let (_, header) = EncryptedHeader::generate(&cc, &mpk, &AccessPolicy::parse("DPT::FIN")?, Some(b"some metadata"), Some(b"aad"))?;
+    Ok(ChildWorld { cc, msk, mpk, usks, encs, header })
+}
+
+fn run_input(w: &ChildWorld, kind: &str, bytes: &[u8]) -> (String, u64, String) {
+    // returns (status, work units, detail)
+    let mut units: u64 = 1;
+    macro_rules! parse {
+        ($t:ty) => {
+            match <$t>::deserialize(bytes) {
+                Ok(x) => x,
+                Err(_) => return ("err".into(), units, "rejected".into()),
+            }
+        };
+    }
+    let mut detail = String::new();
+    match kind {
+        "xenc" => {
+            let e = parse!(XEnc);
+            let _ = e.tracing_level();
+            let n = e.count() as u64;
+            for u in &w.usks {
+                units += n * 8;
+                let r = w.cc.decaps(u, &e);
+                detail.push_str(match r {
+                    Ok(Some(_)) => "S",
+                    Ok(None) => "N",
+                    Err(_) => "E",
+                });
+            }
+            units += n * 24;
+            let r = w.cc.recaps(&w.msk, &w.mpk, &e);
+            detail.push_str(if r.is_ok() { "r" } else { "x" });
+            let _ = e.serialize();
+        }
+        "header" => {
+            let h = parse!(EncryptedHeader);
+            let _ = h.encapsulation.tracing_level();
+            let n = h.encapsulation.count() as u64;
+            for u in &w.usks {
+                units += n * 8;
+                let r = h.decrypt(&w.cc, u, Some(b"aad"));
+                detail.push_str(match r {
+                    Ok(Some(_)) => "S",
+                    Ok(None) => "N",
+                    Err(_) => "E",
+                });
+            }
+            let _ = h.serialize();
+        }
+        "usk" => {
+            let u = parse!(UserSecretKey);
+            let _ = u.tracing_level();
+            let sz = bytes.len() as u64 / 32 + 1;
+            for e in &w.encs {
+                units += sz * e.count() as u64;
+                let r = w.cc.decaps(&u, e);
+                detail.push_str(match r {
+                    Ok(Some(_)) => "S",
+                    Ok(None) => "N",
+                    Err(_) => "E",
+                });
+            }
+            let _ = w.header.decrypt(&w.cc, &u, Some(b"aad"));
+            // refresh against a copy of the master key
+            if let Ok(b) = w.msk.serialize() {
+                if let Ok(mut m) = MasterSecretKey::deserialize(&b) {
+                    let mut u2 = u.clone();
+                    units += sz;
+                    let r = w.cc.refresh_usk(&mut m, &mut u2, bytes.len() % 2 == 0);
+                    detail.push_str(if r.is_ok() { "r" } else { "x" });
+                }
+            }
+            let _ = u.serialize();
+        }
+        "mpk" => {
+            let p = parse!(MasterPublicKey);
+            let _ = p.tracing_level();
+            let attrs: Vec<QualifiedAttribute> = p.access_structure.attributes().take(4).collect();
+            let _ = p.access_structure.dimensions().count();
+            units += 8;
+            if let Ok((_, e)) = w.cc.encaps(&p, &AccessPolicy::Broadcast) {
+                let _ = e.tracing_level();
+                detail.push('b');
+            }
+            for a in attrs {
+                units += 4;
+                let r = w.cc.encaps(&p, &AccessPolicy::Term(a));
+                detail.push_str(if r.is_ok() { "e" } else { "x" });
+            }
+            let _ = p.serialize();
+        }
+        "msk" => {
+            let mut m = parse!(MasterSecretKey);
+            let sz = bytes.len() as u64 / 32 + 1;
+            units += sz * 4;
+            let _ = m.access_structure.attributes().count();
+            let r = m.mpk();
+            detail.push_str(if r.is_ok() { "p" } else { "x" });
+            let r = w.cc.generate_user_secret_key(&mut m, &AccessPolicy::Broadcast);
+            detail.push_str(if r.is_ok() { "k" } else { "x" });
+            if let Ok(u) = r {
+                let _ = u.tracing_level();
+            }
+            for e in &w.encs {
+                units += sz * e.count() as u64 * 2;
+                let r = w.cc.recaps(&m, &w.mpk, e);
+                detail.push_str(if r.is_ok() { "r" } else { "x" });
+            }
+            let r = w.cc.update_msk(&mut m);
+            detail.push_str(if r.is_ok() { "u" } else { "x" });
+            let r = w.cc.rekey(&mut m, &AccessPolicy::Broadcast);
+            detail.push_str(if r.is_ok() { "R" } else { "x" });
+            let _ = m.serialize();
+        }
+        "structure" => {
+            let s = parse!(AccessStructure);
+            let n = s.attributes().count();
+            let _ = s.dimensions().count();
+            detail.push_str(&format!("a{n}"));
+            let mut s2 = s.clone();
+            let _ = s2.add_anarchy("ZZ".into());
+            let _ = s2.add_attribute(qa("ZZ", "z"), hint(false), None);
+            let _ = s2.serialize();
+        }
+        "cleartext" => {
+            let c = parse!(CleartextHeader);
+            let _ = c.serialize();
+        }
+        _ => return ("err".into(), 0, "unknown-kind".into()),
+    }
+    ("ok".into(), units, detail)
+}
+
+pub fn child_main() {
+    crate::runner::install_panic_hook();
+    let world = match child_world() {
+        Ok(w) => w,
+        Err(e) => {
+            println!("fatal {}", e);
+            return;
+        }
+    };
+    LIMITED.store(true, Ordering::SeqCst);
+    let stdin = std::io::stdin();
+    let stdout = std::io::stdout();
+    let mut line = String::new();
+    loop {
+        line.clear();
+        match stdin.lock().read_line(&mut line) {
+            Ok(0) | Err(_) => return,
+            Ok(_) => {}
+        }
+        let mut it = line.trim_end().splitn(3, ' ');
+        let cmd = it.next().unwrap_or("");
+        let mut out = stdout.lock();
+        match cmd {
+            "gen" => {
+                let mut parts = vec![];
+                let mut put = |k: &str, b: Vec<u8>| parts.push(format!("{k}={}", crate::wire::hex(&b)));
+                for e in &world.encs {
+                    put("xenc", e.serialize().unwrap().to_vec());
+                }
+                put("header", world.header.serialize().unwrap().to_vec());
+                for u in &world.usks {
+                    put("usk", u.serialize().unwrap().to_vec());
+                }
+                put("mpk", world.mpk.serialize().unwrap().to_vec());
+                put("msk", world.msk.serialize().unwrap().to_vec());
+                put("structure", world.msk.access_structure.serialize().unwrap().to_vec());
+                let _ = writeln!(out, "seeds {}", parts.join(" "));
+            }
+            "run" => {
+                let kind = it.next().unwrap_or("").to_string();
+                let bytes = crate::wire::unhex(it.next().unwrap_or("")).unwrap_or_default();
+                PEAK.store(CUR.load(Ordering::Relaxed), Ordering::Relaxed);
+                BIG.store(0, Ordering::Relaxed);
+                let base = CUR.load(Ordering::Relaxed);
+                let t0 = cpu_us();
+                let r = std::panic::catch_unwind(std::panic::AssertUnwindSafe(|| run_input(&world, &kind, &bytes)));
+                let dt = cpu_us() - t0;
+                let peak = PEAK.load(Ordering::Relaxed).saturating_sub(base);
+                let big = BIG.load(Ordering::Relaxed);
+                match r {
+                    Ok((status, units, detail)) => {
+                        let _ = writeln!(out, "{status} peak={peak} big={big} cpu_us={dt} units={units} detail={detail}");
+                    }
+                    Err(_) => {
+                        let (loc, msg) = crate::runner::take_panic();
+                        let msg: String = msg.chars().filter(|c| *c != '\n').take(120).collect();
+                        let _ = writeln!(out, "panic@{loc} peak={peak} big={big} cpu_us={dt} units=0 detail={msg}");
+                    }
+                }
+            }
+            "quit" => return,
+            _ => {
+                let _ = writeln!(out, "err peak=0 big=0 cpu_us=0 units=0 detail=unknown-command");
+            }
+        }
+        let _ = out.flush();
+    }
+}
+
+// ------------------------------------------------------------------ parent side
+
+pub struct Child {
+    proc: PChild,
+    stdin: ChildStdin,
+    rx: Receiver<String>,
+    pub seeds: Vec<(String, Vec<u8>)>,
+}
+
+#[derive(Debug, Clone)]
+pub struct Reply {
+    pub status: String,
+    pub peak: u64,
+    pub big: u64,
+    pub cpu_us: u64,
+    pub units: u64,
+    pub detail: String,
+}
+
+#[derive(Debug)]
+pub enum Outcome {
+    Reply(Reply),
+    /// child died: (how, stderr tail)
+    Died(String),
+    /// child consumed more CPU than the limit without answering
+    Hang(u64),
+    /// no answer and (almost) no CPU use: harness-side stall
+    Stall,
+}
+
+fn proc_cpu_ticks(pid: u32) -> Option<u64> {
+    let s = std::fs::read_to_string(format!("/proc/{pid}/stat")).ok()?;
+    let rest = s.rsplit_once(')')?.1;
+    let f: Vec<&str> = rest.split_whitespace().collect();
+    // fields after ')': state(0) ... utime is index 11, stime 12
+    Some(f.get(11)?.parse::<u64>().ok()? + f.get(12)?.parse::<u64>().ok()?)
+}
+
+impl Child {
+    pub fn spawn() -> Result<Child, String> {
+        let exe = std::env::current_exe().map_err(|e| e.to_string())?;
+        let mut proc = Command::new(exe)
+            .arg("--worker")
+            .stdin(Stdio::piped())
+            .stdout(Stdio::piped())
+            .stderr(Stdio::piped())
+            .env("RUST_BACKTRACE", "0")
+            .spawn()
+            .map_err(|e| e.to_string())?;
+        let stdin = proc.stdin.take().unwrap();
+        let stdout = proc.stdout.take().unwrap();
+        let (tx, rx) = channel();
+        std::thread::spawn(move || {
+            let mut r = BufReader::new(stdout);
+            let mut line = String::new();
+            loop {
+                line.clear();
+                match r.read_line(&mut line) {
+                    Ok(0) | Err(_) => break,
+                    Ok(_) => {
+                        if tx.send(line.trim_end().to_string()).is_err() {
+                            break;
+                        }
+                    }
+                }
+            }
+        });
+        let mut c = Child { proc, stdin, rx, seeds: vec![] };
+        c.stdin.write_all(b"gen\n").map_err(|e| e.to_string())?;
+        c.stdin.flush().map_err(|e| e.to_string())?;
+        let line = c.rx.recv_timeout(Duration::from_secs(60)).map_err(|e| format!("child did not produce seeds: {e}"))?;
+        let Some(rest) = line.strip_prefix("seeds ") else { return Err(format!("unexpected child greeting: {line}")) };
+        for p in rest.split(' ') {
+            if let Some((k, h)) = p.split_once('=') {
+                c.seeds.push((k.to_string(), crate::wire::unhex(h).unwrap_or_default()));
+            }
+        }
+        Ok(c)
+    }
+
+    fn stderr_tail(&mut self) -> String {
+        use std::io::Read;
+        let mut s = String::new();
+        if let Some(mut e) = self.proc.stderr.take() {
+            let _ = e.read_to_string(&mut s);
+        }
+        let s: String = s.lines().filter(|l| !l.trim().is_empty()).take(3).collect::<Vec<_>>().join(" | ");
+        s.chars().take(300).collect()
+    }
+
+    /// Send one input; `cpu_limit_s` is the CPU budget after which the child counts as hung.
+    pub fn run(&mut self, kind: &str, bytes: &[u8], cpu_limit_s: f64) -> Outcome {
+        let pid = self.proc.id();
+        let ticks0 = proc_cpu_ticks(pid).unwrap_or(0);
+        let msg = format!("run {kind} {}\n", crate::wire::hex(bytes));
+        if self.stdin.write_all(msg.as_bytes()).and_then(|_| self.stdin.flush()).is_err() {
+            let st = self.proc.wait().map(|s| s.to_string()).unwrap_or_default();
+            return Outcome::Died(format!("{st}; {}", self.stderr_tail()));
+        }
+        let t0 = Instant::now();
+        let hz = 100.0;
+        loop {
+            match self.rx.recv_timeout(Duration::from_millis(200)) {
+                Ok(line) => return Outcome::Reply(parse_reply(&line)),
+                Err(RecvTimeoutError::Disconnected) => {
+                    let st = self.proc.wait().map(|s| s.to_string()).unwrap_or_default();
+                    return Outcome::Died(format!("{st}; {}", self.stderr_tail()));
+                }
+                Err(RecvTimeoutError::Timeout) => {
+                    let used = (proc_cpu_ticks(pid).unwrap_or(ticks0).saturating_sub(ticks0)) as f64 / hz;
+                    if used > cpu_limit_s {
+                        let _ = self.proc.kill();
+                        let _ = self.proc.wait();
+                        return Outcome::Hang((used * 1e6) as u64);
+                    }
+                    if t0.elapsed() > Duration::from_secs_f64(cpu_limit_s * 20.0 + 60.0) {
+                        let _ = self.proc.kill();
+                        let _ = self.proc.wait();
+                        return Outcome::Stall;
+                    }
+                }
+            }
+        }
+    }
+}
+
+impl Drop for Child {
+    fn drop(&mut self) {
+        let _ = self.stdin.write_all(b"quit\n");
+        let _ = self.proc.kill();
+        let _ = self.proc.wait();
+    }
+}
+
+fn parse_reply(line: &str) -> Reply {
+    let mut r = Reply { status: String::new(), peak: 0, big: 0, cpu_us: 0, units: 0, detail: String::new() };
+    let mut it = line.splitn(6, ' ');
+    r.status = it.next().unwrap_or("").to_string();
+    for p in it {
+        if let Some(v) = p.strip_prefix("peak=") {
+            r.peak = v.parse().unwrap_or(0);
+        } else if let Some(v) = p.strip_prefix("big=") {
+            r.big = v.parse().unwrap_or(0);
+        } else if let Some(v) = p.strip_prefix("cpu_us=") {
+            r.cpu_us = v.parse().unwrap_or(0);
+        } else if let Some(v) = p.strip_prefix("units=") {
+            r.units = v.parse().unwrap_or(0);
+        } else if let Some(v) = p.strip_prefix("detail=") {
+            r.detail = v.to_string();
+        }
+    }
+    r
+}
